@@ -388,14 +388,24 @@ type unk struct {
 }
 
 var unknowns = []unk{
-	{"varint1", func(n protowire.Number) []byte { return protowire.AppendVarint(protowire.AppendTag(nil, n, protowire.VarintType), 1) }},
+	{"varint1", func(n protowire.Number) []byte {
+		return protowire.AppendVarint(protowire.AppendTag(nil, n, protowire.VarintType), 1)
+	}},
 	{"varint10", func(n protowire.Number) []byte {
 		return protowire.AppendVarint(protowire.AppendTag(nil, n, protowire.VarintType), 1<<64-1)
 	}},
-	{"fixed64", func(n protowire.Number) []byte { return protowire.AppendFixed64(protowire.AppendTag(nil, n, protowire.Fixed64Type), 0x0102030405060708) }},
-	{"fixed32", func(n protowire.Number) []byte { return protowire.AppendFixed32(protowire.AppendTag(nil, n, protowire.Fixed32Type), 0xfffefdfc) }},
-	{"bytes0", func(n protowire.Number) []byte { return protowire.AppendBytes(protowire.AppendTag(nil, n, protowire.BytesType), nil) }},
-	{"bytes1", func(n protowire.Number) []byte { return protowire.AppendBytes(protowire.AppendTag(nil, n, protowire.BytesType), []byte{0x08}) }},
+	{"fixed64", func(n protowire.Number) []byte {
+		return protowire.AppendFixed64(protowire.AppendTag(nil, n, protowire.Fixed64Type), 0x0102030405060708)
+	}},
+	{"fixed32", func(n protowire.Number) []byte {
+		return protowire.AppendFixed32(protowire.AppendTag(nil, n, protowire.Fixed32Type), 0xfffefdfc)
+	}},
+	{"bytes0", func(n protowire.Number) []byte {
+		return protowire.AppendBytes(protowire.AppendTag(nil, n, protowire.BytesType), nil)
+	}},
+	{"bytes1", func(n protowire.Number) []byte {
+		return protowire.AppendBytes(protowire.AppendTag(nil, n, protowire.BytesType), []byte{0x08})
+	}},
 	{"bytes200", func(n protowire.Number) []byte {
 		return protowire.AppendBytes(protowire.AppendTag(nil, n, protowire.BytesType), make([]byte, 200))
 	}},
